@@ -4,7 +4,7 @@ tier=${1:-quick}
 cd /verif
 for id in $(python3 -c "import json;print(' '.join(c['property_id'] for c in json.load(open('MANIFEST.json'))['checks']))"); do
   t0=$(date +%s.%N)
-  out=$(/venv/bin/python -m tv $id --tier $tier 2>&1); rc=$?
+  out=$(/venv/bin/python -m tv $id --tier $tier $TV_EXTRA 2>&1); rc=$?
   t1=$(date +%s.%N)
   printf "%s rc=%s wall=%.1f %s\n" $id $rc $(echo "$t1 - $t0" | bc) "$(echo "$out" | grep -E "^$id tier" | cut -c1-150)"
   echo "$out" | grep -E "^VIOLATION|^KNOWN-FINDING|^HARNESS|^violation" | cut -c1-300
